@@ -6,6 +6,7 @@ from ..mirutil import (success_edges, root_place, op_root, deep_root, place_is_f
                        origin, defuse, calls_in, result_return_sites, loops_of, iter_source, dominated_by_ok)
 from ..region import dominated_by_edges, bool_place_edges, write_summary
 from .. import anchors as A
+from . import c16
 from .c13 import length_mismatch_rule
 
 
@@ -252,6 +253,7 @@ RULES = [
     ("C14.R1", r1_self_test_first, "the connected-to-self abort dominates every effect of handle_init"),
     ("C14.R2", r2_self_test_can_succeed, "the self test compares sequences of equal length (it can succeed)"),
     ("C14.R3", r3_own_addresses_not_dialled, "own addresses are not dialled; addresses under the own node id are adopted, not dialled"),
+    ("C14.R5", c16.r3_flag_layout, "the peer lists that carry the mesh are decodable for every node: address counts fit the 3-bit fields of the node-info flags byte (= C16.R3)"),
     ("C14.R4", r4_peer_exchange_wiring, "node info lists all peers and own addresses; received lists reach connect_to_peers; announcements when due"),
 ]
 
